@@ -48,12 +48,96 @@ class PathAbort(Exception):
     """This path ends here (infeasible, or deliberately stopped)."""
 
 
+class NativeReplayUnsupported(Exception):
+    """the generic replay of a counter-model on the real function does not apply to this unit"""
+
+
 class Unsupported(Exception):
     """The executor (or a model) cannot handle this construct: exit 3, never a verdict."""
 
 
 class _WouldFork(Exception):
     """Raised while evaluating speculatively (no forking, no writes allowed)."""
+
+
+class _NoMerge(Exception):
+    pass
+
+
+_NO_MERGE = object()
+
+
+_IMPURE = (ast.Call, ast.Await, ast.Yield, ast.YieldFrom, ast.NamedExpr, ast.ListComp, ast.SetComp, ast.DictComp, ast.GeneratorExp, ast.Lambda)
+
+
+def _call_free(e):
+    return e is None or not any(isinstance(n, _IMPURE) for n in ast.walk(e))
+
+
+def _pure_return_shape(stmts):
+    """every path through `stmts` consists of call-free tests and ends in a call-free return (no assignment, call, loop,
+    raise ...): evaluating such a tail twice, or one arm of it unguarded, has no effect on the heap or on ghost state"""
+    for i, s in enumerate(stmts):
+        if isinstance(s, ast.Return):
+            return _call_free(s.value)
+        if isinstance(s, ast.If) and not _call_free(s.test):
+            return False
+        if isinstance(s, ast.Pass) or (isinstance(s, ast.Expr) and isinstance(s.value, ast.Constant)):
+            continue
+        if isinstance(s, ast.If):
+            rest = list(stmts[i + 1:])
+            return _pure_return_shape(list(s.body) + rest) and _pure_return_shape(list(s.orelse) + rest)
+        return False
+    return False
+
+
+def _merge_values(c, a, b):
+    """ite(c, a, b) for two results of the same Python type (else no merge)"""
+    if isinstance(a, NTVal) and isinstance(b, NTVal) and a.cls is b.cls:
+        return NTVal.of_term(a.cls, z3.If(c, a.term(), b.term()))
+    if isinstance(a, (HObj, NTVal)) or isinstance(b, (HObj, NTVal)):
+        if a is b:
+            return a
+        raise _NoMerge()
+    if not is_sym(a) and not is_sym(b):
+        try:
+            if type(a) is type(b) and a == b:
+                return a
+        except Exception:
+            raise _NoMerge()
+        if a is None or b is None:
+            other = b if a is None else a
+            try:
+                oty = TOpt(ty_of_concrete(other))
+            except Exception:
+                raise _NoMerge()
+            return SV(z3.If(c, oty.lift(a), oty.lift(b)), oty)
+        try:
+            ta, tb = ty_of_concrete(a), ty_of_concrete(b)
+        except Exception:
+            raise _NoMerge()
+        if type(a) is not type(b) or ta.sort() != tb.sort():
+            raise _NoMerge()
+        return SV(z3.If(c, ta.lift(a), ta.lift(b)), ta)
+    sy, other, flip = (a, b, False) if is_sym(a) else (b, a, True)
+    if is_sym(other):
+        if other.ty != sy.ty and not (other.ty.sort() == sy.ty.sort() and other.ty.kind == sy.ty.kind and getattr(other.ty, "pyty", None) == getattr(sy.ty, "pyty", None)):
+            raise _NoMerge()
+        return SV(z3.If(c, a.t, b.t), sy.ty)
+    try:
+        if other is None and sy.ty.kind != "opt":
+            oty = TOpt(sy.ty)
+            st, ot = oty.some(sy.t), oty.lift(None)
+        else:
+            if type(other) is bool and sy.ty.kind != "bool":
+                raise _NoMerge()
+            oty = sy.ty
+            st, ot = sy.t, oty.lift(other)
+    except _NoMerge:
+        raise
+    except Exception:
+        raise _NoMerge()
+    return SV(z3.If(c, ot, st) if flip else z3.If(c, st, ot), oty)
 
 
 class _Return(Exception):
@@ -443,8 +527,14 @@ class Ex:
     VC_TIMEOUT_MS = 20000
     BRANCH_TIMEOUT_MS = 3000
 
-    def __init__(self, unit, prefix):
+    def __init__(self, unit, prefix, pins=None):
         self.unit = unit
+        self.pins = pins              # replay mode: input name -> python value (see _native_call)
+        self.pin_objs = []
+        self.native_calls = 0
+        self.native_args = None
+        self.native_result = None
+        self.pre_call_decisions = None
         self.repo = repo()
         self.prefix = list(prefix)
         self.dpos = 0
@@ -573,6 +663,8 @@ class Ex:
 
     def prove(self, oid, f, detail=""):
         """Obligation: pc => f.  Proved inline; assumed afterwards."""
+        if self.nofork:
+            raise _WouldFork()      # never decide an obligation during speculative (unguarded) evaluation
         t0 = time.time()
         if isinstance(f, bool):
             f = z3.BoolVal(f)
@@ -629,6 +721,9 @@ class Ex:
             st = "unknown"
             model = {"candidate_from_sliced_query": candidate} if candidate else None
         ob = Obligation(oid, st, detail or str(fs)[:300], time.time() - t0, path, model, backend, size)
+        ob.decisions = [i for i, _ in self.decisions]
+        ob.pre_call = self.pre_call_decisions
+        ob.raw_model = getattr(self, "_last_raw", None) if st == "refuted" else None
         ob.auto_slots = list(self.ghost.get("auto_slots", []))
         self.obligations.append(ob)
         if st == "discharged":
@@ -802,12 +897,20 @@ class Ex:
         return self.prove(oid, x == y, detail)
 
     def _model_of(self, m):
-        out = {}
+        out, raw = {}, {}
         for name, v in self.input_vars.items():
             try:
                 out[name] = self.model_value(m, v)
             except Exception as e:  # pragma: no cover
                 out[name] = f"<{type(e).__name__}: {e}>"
+            try:
+                if isinstance(v, NTVal):
+                    raw[name] = v.nty.unlift(m.eval(v.term(), model_completion=True), m)
+                elif is_sym(v):
+                    raw[name] = v.ty.unlift(m.eval(v.t, model_completion=True), m)
+            except Exception:
+                pass
+        self._last_raw = raw
         return out
 
     def _extract_model(self, neg):
@@ -852,6 +955,12 @@ class Ex:
         if ty.kind == "nt":
             v = NTVal.of_term(ty.cls, v.t)
         self.input_vars[name] = v
+        pins = getattr(self, "pins", None)
+        if pins is not None:
+            if name not in pins:
+                raise NativeReplayUnsupported(f"no value for input {name!r} in the counter-model")
+            self.assume((v.term() if isinstance(v, NTVal) else v.t) == ty.lift(pins[name]), "input pinned to the counter-model")
+            self.pin_objs.append((v, pins[name]))
         return v
 
     # -- truthiness / equality --------------------------------------------
@@ -1004,11 +1113,72 @@ class Ex:
         Execute a function value to completion.
         Returns ('return', value) or ('raise', ExcVal).
         """
+        if getattr(self, "pins", None) is not None:
+            return self._native_call(fn, list(args), dict(kwargs or {}))
+        self.pre_call_decisions = getattr(self, "pre_call_decisions", None) if getattr(self, "pre_call_decisions", None) is not None else len(self.decisions)
         try:
             v = self.call(fn, list(args), dict(kwargs or {}))
             return ("return", v)
         except PyRaise as e:
             return ("raise", e.exc)
+
+    def _native_call(self, fn, args, kwargs):
+        """replay mode: the inputs are pinned to a counter-model; the REAL function is called natively by CPython on those
+        values and its real result (or exception) is handed to the unit's postconditions"""
+        import importlib
+        if self.native_calls:
+            raise NativeReplayUnsupported("the unit calls more than one function")
+        self.native_calls += 1
+        if not isinstance(fn, Closure) or fn.frame is not None:
+            raise NativeReplayUnsupported("not a top-level function or method")
+
+        def real(v):
+            for sv, py in self.pin_objs:
+                if sv is v:
+                    return py
+            if isinstance(v, (SV, NTVal, HObj)) or callable(getattr(v, "at", None)):
+                raise NativeReplayUnsupported(f"argument {v!r} is not a pinned input")
+            return v
+
+        rargs = [real(a) for a in args]
+        rkw = {k: real(v) for k, v in kwargs.items()}
+        fi = fn.fi
+        mod = importlib.import_module(fi.module)
+        if fi.cls:
+            cls = getattr(mod, fi.cls)
+            raw = vars(cls).get(fi.node.name)
+            if isinstance(raw, (classmethod, staticmethod)):
+                raw = raw.__func__
+            elif isinstance(raw, property):
+                raw = raw.fget
+        else:
+            raw = getattr(mod, fi.node.name, None)
+        if raw is None or not callable(raw):
+            raise NativeReplayUnsupported(f"cannot resolve {fi.qualname} natively")
+        raw = getattr(raw, "__wrapped__", raw) if False else raw
+        self.native_args = (rargs, rkw)
+        try:
+            out = raw(*rargs, **rkw)
+        except Exception as e:
+            ev = ExcVal(type(e), e.args)
+            ev.tag = None
+            self.native_result = ("raise", repr(e))
+            return ("raise", ev)
+        self.native_result = ("return", repr(out))
+        try:
+            return ("return", self._lift_native(out))
+        except Exception as e:
+            raise NativeReplayUnsupported(f"result {out!r} cannot be handed to the contract: {e}")
+
+    def _lift_native(self, out):
+        if out is None or isinstance(out, (bool, int, str, type)):
+            return out
+        if isinstance(out, tuple) and not hasattr(out, "_fields"):
+            return tuple(self._lift_native(x) for x in out)
+        if isinstance(out, tuple):
+            return NTVal.of_term(type(out), TNT(type(out)).lift(out))
+        ty = ty_of_concrete(out)
+        return SV(ty.lift(out), ty)
 
     def raise_(self, cls, *args, tag=None):
         e = ExcVal(cls, args)
@@ -1136,8 +1306,51 @@ class Ex:
 
     # -- statements ----------------------------------------------------------
     def exec_block(self, stmts, fr: Frame):
-        for s in stmts:
+        top = fr.fi is not None and stmts is fr.fi.node.body and not self.nofork
+        for i, s in enumerate(stmts):
+            if top and isinstance(s, ast.If) and _pure_return_shape([s] + list(stmts[i + 1:])):
+                merged = self._merge_pure_returns([s] + list(stmts[i + 1:]), fr)
+                if merged is not _NO_MERGE:
+                    raise _Return(merged)
             self.exec_stmt(s, fr)
+
+    def _merge_pure_returns(self, stmts, fr):
+        """
+        If-conversion of a side-effect-free tail `if c: return A ... return B`: both arms are evaluated without forking,
+        writing or proving, and the function returns ite(c, A, B).  Semantics-preserving (arms are pure expressions whose
+        evaluation neither raised nor needed a fork); any doubt falls back to the ordinary forking execution.
+        """
+        n_pc, n_ob = len(self.pc), len(self.obligations)
+        self.nofork += 1
+        try:
+            return self._pure_value(stmts, fr)
+        except (_WouldFork, PyRaise, Unsupported, _NoMerge):
+            if len(self.obligations) != n_ob:
+                raise Unsupported("internal: an obligation was generated during speculative evaluation")
+            return _NO_MERGE
+        finally:
+            self.nofork -= 1
+
+    def _pure_value(self, stmts, fr):
+        for i, s in enumerate(stmts):
+            if isinstance(s, ast.Return):
+                return self.eval(s.value, fr) if s.value is not None else None
+            if isinstance(s, ast.Pass) or (isinstance(s, ast.Expr) and isinstance(s.value, ast.Constant)):
+                continue
+            if isinstance(s, ast.If):
+                rest = list(stmts[i + 1:])
+                c = self.eval_cond(s.test, fr)
+                if not isinstance(c, bool):
+                    c = z3.simplify(c)
+                    if z3.is_true(c) or z3.is_false(c):
+                        c = z3.is_true(c)
+                if isinstance(c, bool):
+                    return self._pure_value(list(s.body if c else s.orelse) + rest, fr)
+                a = self._pure_value(list(s.body) + rest, fr)
+                b = self._pure_value(list(s.orelse) + rest, fr)
+                return _merge_values(c, a, b)
+            raise _NoMerge()
+        raise _NoMerge()
 
     def exec_stmt(self, s, fr: Frame):
         m = getattr(self, "st_" + type(s).__name__, None)
@@ -2372,3 +2585,34 @@ def explore(unit, max_paths=4000):
         stack.extend(ex.alternatives)
     res.seconds = time.time() - t0
     return res
+
+
+
+def native_replay(unit, ob):
+    """
+    Replay a refuted obligation's counter-model against the REAL code: the unit is run again with its inputs pinned to the
+    model and with the function under contract called natively by CPython; the obligation is then decided on the real
+    result.  Returns a replay record or None when it does not apply (heap inputs, several calls, no model).
+    """
+    raw = getattr(ob, "raw_model", None)
+    if not raw or ob.pre_call is None:
+        return None
+    ex = Ex(unit, list(ob.decisions[:ob.pre_call]), pins=dict(raw))
+    try:
+        unit.run(ex)
+    except NativeReplayUnsupported:
+        return None
+    except PathAbort:
+        pass        # the obligations decided before the abort stand
+    except (Unsupported, PyRaise, z3.Z3Exception, RecursionError, KeyError, TypeError, AttributeError, ValueError, IndexError):
+        return None
+    if ex.native_calls != 1 or ex.alternatives and False:
+        return None
+    same = [o for o in ex.obligations if o.oid == ob.oid]
+    if not same:
+        return None
+    o2 = same[0]
+    rargs, rkw = ex.native_args or ([], {})
+    return dict(reproduced=o2.status == "refuted", adapter="native (CPython call of the real function on the counter-model, postcondition decided on the real result)",
+                input=dict(args=[repr(a) for a in rargs], kwargs={k: repr(v) for k, v in rkw.items()}),
+                detail=f"the real function {ex.native_result[0]}s {ex.native_result[1]}; obligation {ob.oid} on that result: {o2.status}")
